@@ -6,8 +6,12 @@ EXTENDS Annotation, TLC, Json, FiniteSets
 CONSTANTS Kinds, OuterArgs, Helpers, Mixes, MaxPos
 VARIABLE c
 
+ExprKinds == {"struct_len_if", "struct_len_block", "struct_len_index"}
 NPos(k) == CASE k = "named_struct" -> 3 [] k = "tuple_struct" -> 1 [] k = "unit_struct" -> 0 [] k = "enum" -> 4
              [] k = "union" -> 2 [] k = "generic_struct" -> 2 [] k = "alias" -> 0 [] k = "const" -> 0
+             \* structs whose field types hold expressions beyond the literal / path subset: an array length written as an if expression,
+             \* as a block, as an index expression (valid Rust; the twin compiles)
+             [] k \in ExprKinds -> 2
 Init == c \in [kind : Kinds, outer : OuterArgs, helper : Helpers, mix : Mixes, at : SUBSET (1..MaxPos)]
 Next == UNCHANGED c
 InScope == c.at \subseteq 1..NPos(c.kind)
@@ -49,6 +53,7 @@ Members ==
       [] c.kind = "enum" -> << M("Unit", 1, "variant", <<>>), M("Tuple", 2, "variant", << F("0", 3) >>), M("Named", 0, "variant", << F("inner", 4) >>) >>
       [] c.kind = "union" -> << M("a", 1, "field", <<>>), M("b", 2, "field", <<>>) >>
       [] c.kind = "generic_struct" -> << M("first", 1, "field", <<>>), M("second", 2, "field", <<>>) >>
+      [] c.kind \in ExprKinds -> << M("bytes", 1, "field", <<>>), M("tag", 2, "field", <<>>) >>
       [] OTHER -> <<>>
 Item == [kind |-> c.kind, attrs |-> <<Outer>>, members |-> Members]
 Emit == InScope => PrintT(<<"REPLAY", ToJson([case |-> [c EXCEPT !.at = {}] , at |-> c.at, item |-> Item, twin |-> Strip(Item)])>>)
